@@ -455,8 +455,13 @@ func (t *VTrans) send(target raft.ServerAddress, kind string, req any, body []by
 	return m
 }
 
+// noNetCalls counts the RPCs refused by handler-level harness transports (lets an enumerator wait for the
+// goroutines a handler spawned).
+var noNetCalls int
+
 func (t *VTrans) call(target raft.ServerAddress, kind string, req any, body []byte) (raft.RPCResponse, error) {
 	if t.noNet {
+		noNetCalls++
 		return raft.RPCResponse{}, fmt.Errorf("no network (handler-level harness)")
 	}
 	m := t.send(target, kind, req, body)
